@@ -31,14 +31,24 @@ class H(BaseException):
     pass
 
 
-HIER = {'B': B, 'S': S, 'Un': Un, 'H': H}
+class Falsy(B):
+    """an exception that is falsy (its truth value delegates to a response's `ok`, or its length is the number of
+    sub-errors and there are none): still an exception like any other"""
+    def __bool__(self):
+        return False
+
+    def __len__(self):
+        return 0
+
+
+HIER = {'B': B, 'S': S, 'Un': Un, 'H': H, 'F': Falsy}
 ONLY = {'BaseException': BaseException, 'Exception': Exception, 'B': B, 'S': S, 'Un': Un, 'H': H}
 # 'Cancel': the awaitable ends with a CancelledError of its own (e.g. it awaited something that somebody else
 # cancelled) while nobody cancels the caller - for gather_excs this is a failure like any other BaseException
 # 'G' / 'BG': the awaitable fails with an exception *group* (a TaskGroup inside it, say): the group is what was raised
 # 'SAI' / 'TO' / 'KE': builtin classes with a meaning of their own elsewhere (StopAsyncIteration ends async iteration,
 # TimeoutError is what asyncio's timeouts raise, KeyError is what look-ups raise): here they are failures like any other
-OUTCOMES = [None, 'B', 'S', 'Un', 'H', 'Cancel', 'G', 'BG', 'SAI', 'TO', 'KE']
+OUTCOMES = [None, 'B', 'S', 'Un', 'H', 'Cancel', 'G', 'BG', 'SAI', 'TO', 'KE', 'F']
 BUILTIN = {'SAI': StopAsyncIteration, 'TO': TimeoutError, 'KE': KeyError}
 ONLY['ExceptionGroup'] = ExceptionGroup
 # 'done': a future that is already settled (result or exception) when gather_excs is called
@@ -86,7 +96,7 @@ class C20(Check):
             rng.shuffle(perm)
             yield {'out': [rng.randrange(len(OUTCOMES)) for _ in range(n)], 'order': perm,
                    'only': rng.choice(list(ONLY)), 'kinds': [rng.choice(KINDS) for _ in range(n)],
-                   'ties': rng.random() < 0.2,
+                   'ties': rng.random() < 0.2, 'shared': rng.random() < 0.15,
                    # gathers that take seconds or a minute (virtual), not milliseconds
                    'scale': rng.choice([1, 1, 1, 2000, 20000])}
         # many awaitables at once, on two event loops one after the other in the same process
@@ -130,6 +140,13 @@ class C20(Check):
                             return BUILTIN[name](i, which)
                         return HIER[name](i, which)
                     excs = [mk(i, o) for i, o in enumerate(case['out'])]
+                    if case.get('shared'):
+                        # several awaitables fail with the very same exception object (one failure fanned out to all
+                        # who waited for it, as the library's own batcher does): each of them failed
+                        first = {}
+                        for i, o in enumerate(case['out']):
+                            if excs[i] is not None and not isinstance(excs[i], aio.CancelledError):
+                                excs[i] = first.setdefault(o, excs[i])
 
                     async def aw(i):
                         log.append(('start', which, i, s.now))
